@@ -420,7 +420,16 @@ class RoundTripElement(Unit):
 # -- SSC parsing ---------------------------------------------------------------------------
 
 
-def opt_chart_slot(name, cls):
+def _carried(ex, qualname, ordn):
+    """the one plain local the loop carries (the chart being assembled), whatever it is called"""
+    from pyvc.execu import loop_carried, Unsupported
+    names = loop_carried(ex.repo.func(qualname), ordn)
+    if len(names) != 1:
+        raise Unsupported(f"{qualname}: loop {ordn} carries the locals {names}, the contract expects exactly one (the chart being assembled)")
+    return names[0]
+
+
+def opt_chart_slot(name, cls, slot_name=None):
     """a local that holds None or a chart object being built (value: Optional chart mapping)"""
     from pyvc.values import TOpt
     from pyvc.execu import Slot
@@ -440,7 +449,7 @@ def opt_chart_slot(name, cls):
             sl.owned.append(o)      # the object is this slot's state: the loop may write to it
             fr.locals[name] = o
 
-    sl = Slot(name, OT, g, s)
+    sl = Slot(slot_name or name, OT, g, s)
     sl.local = name
     sl.owned = []
     return sl
@@ -500,7 +509,7 @@ class SSCParse(Unit):
 
         slots = [field_slot("map", lambda ex_, fr: fr.locals["self"], "__map__", O.T_OMAP),
                  field_slot("charts", lambda ex_, fr: fr.locals["self"].fields["_charts"], "data", TSeq(SO.TChart(ccls))),
-                 opt_chart_slot("partial_chart", ccls)]
+                 opt_chart_slot(_carried(ex, self.Q, 0), ccls, "partial_chart")]
         ex.loop_specs[(self.Q, 0)] = LoopSpec(slots, inv, using)
         kind, r = ex.run_function(ex.closure_of(self.Q, owner=scls), [sf, it])
         n = z3.Length(ps)
